@@ -328,6 +328,14 @@ def parse_header(source: BinaryIO) -> Tuple[OFXHeaderType, str]:
         #  in the OFX header
         message = source.read().decode(header.codec).strip()
 
+        #  The header ends with the NEWFILEUID value, which the header regex can't
+        #  anchor (the OFX data may be glued to it).  What follows - blank lines
+        #  aside - is the OFX data, i.e. markup; anything else means that the value
+        #  was cut short at a character a file UID can't contain
+        #  (e.g. "NEWFILEUID:ab.c" read as "ab", with ".c" taken for data).
+        if message and not message.startswith("<"):
+            raise OFXHeaderError(f"Invalid OFX header - {rawheader!r}")
+
     return header, message
 
 
